@@ -101,7 +101,7 @@ def run(t, budget=1.0):
         res.cls("target_depth_%d" % len(path))
         if len(res.samples) < 5 and (len(res.samples) < 2 or res.evaluations % 301 < 7):
             res.sample({"schema": entry.dir.split("/")[-1], "message": L.name, "target_group_path": list(path), "numInGroup": nval, "script": " ".join(sc.tok)})
-        for cfg in entry.status["configs"]:
+        for cfg in entry.value_configs():
             resp = pc.call(entry, cfg, line)
             res.count()
             i = resp.rfind("BUF ")
